@@ -80,6 +80,8 @@ type c10Env struct {
 	baseline map[string]int
 	started  int
 	udpPort  int
+	udpPort2 int
+	blocker  net.PacketConn // holds the second UDP port so that the first start cannot bind it
 	udpStop  chan struct{}
 }
 
@@ -200,8 +202,8 @@ func (e *c10Env) queue(f func(), patience time.Duration) bool {
 	}
 }
 
-func (e *c10Env) udpSender() {
-	conn, err := net.Dial("udp", fmt.Sprintf("127.0.0.1:%d", e.udpPort))
+func (e *c10Env) udpSender(port, first int) {
+	conn, err := net.Dial("udp", fmt.Sprintf("127.0.0.1:%d", port))
 	if err != nil {
 		return
 	}
@@ -215,7 +217,7 @@ func (e *c10Env) udpSender() {
 		case <-e.udpStop:
 			return
 		case <-t.C:
-			p := packets.NewPacket(10, 1, uint32(n), 0)
+			p := packets.NewPacket(10, 1, uint32(n), first)
 			ts := uint64(5000 + n*4*1000)
 			p.SetTimestamp(packets.MakeTimestamp(uint16(ts>>32), uint32(ts), 1e8))
 			d := make([]int16, cc.F*e.c.Nchan)
@@ -227,6 +229,20 @@ func (e *c10Env) udpSender() {
 			n++
 		}
 	}
+}
+
+// startSenders makes the hardware send data from now on (and frees the port the harness was holding).
+func (e *c10Env) startSenders() {
+	if e.blocker != nil {
+		e.blocker.Close()
+		e.blocker = nil
+	}
+	e.udpStop = make(chan struct{})
+	go e.udpSender(e.udpPort, 0)
+	if e.udpPort2 != 0 {
+		go e.udpSender(e.udpPort2, 100)
+	}
+	time.Sleep(20 * time.Millisecond)
 }
 
 func c10Run(c c10Case) (v vVerdict) {
@@ -297,7 +313,7 @@ func c10Run(c c10Case) (v vVerdict) {
 			return ls.Configure(&LanceroSourceConfig{FiberMask: 0xffff, ActiveCards: []int{0}, CardDelay: []int{1}, FirstRow: 1})
 		}
 		inner, e.any = ls, &ls.AnySource
-	case "udp":
+	case "udp", "udp2":
 		as, err := NewAbacoSource()
 		if err != nil {
 			return vFailf("harness", "%v", err)
@@ -305,7 +321,7 @@ func c10Run(c c10Case) (v vVerdict) {
 		e.abaco = as
 		shard, _ := strconv.Atoi(os.Getenv("VERIF_SHARD"))
 		for try := 0; try < 40 && e.udpPort == 0; try++ {
-			cand := 46000 + (shard%64)*200 + (c10Counter*3+try)%200
+			cand := 46000 + (shard%64)*200 + ((c10Counter*3+try)%99)*2
 			if l, err := net.ListenPacket("udp", fmt.Sprintf("127.0.0.1:%d", cand)); err == nil {
 				l.Close()
 				e.udpPort = cand
@@ -314,8 +330,24 @@ func c10Run(c c10Case) (v vVerdict) {
 		if e.udpPort == 0 {
 			return vVerdict{Inconclusive: "no free UDP port"}
 		}
+		hosts := []string{fmt.Sprintf("127.0.0.1:%d", e.udpPort)}
+		if c.Source == "udp2" {
+			// a second receiver whose port is in use at the first start: one receiver samples while the other fails to bind
+			e.udpPort2 = e.udpPort + 1
+			bl, err := net.ListenPacket("udp", fmt.Sprintf("127.0.0.1:%d", e.udpPort2))
+			if err != nil {
+				return vVerdict{Inconclusive: "second UDP port not free"}
+			}
+			e.blocker = bl
+			defer func() {
+				if e.blocker != nil {
+					e.blocker.Close()
+				}
+			}()
+			hosts = append(hosts, fmt.Sprintf("127.0.0.1:%d", e.udpPort2))
+		}
 		reconfigure = func(n int) error {
-			return as.Configure(&AbacoSourceConfig{HostPortUDP: []string{fmt.Sprintf("127.0.0.1:%d", e.udpPort)}})
+			return as.Configure(&AbacoSourceConfig{HostPortUDP: append([]string(nil), hosts...)})
 		}
 		inner, e.any = as, &as.AnySource
 	default:
@@ -371,10 +403,10 @@ func c10Run(c c10Case) (v vVerdict) {
 			inject = ""
 		}
 		failNext = ""
-		if (c.Source == "abaco" || c.Source == "udp") && st0 == Inactive {
+		if (c.Source == "abaco" || c.Source == "udp" || c.Source == "udp2") && st0 == Inactive {
 			reconfigure(nchan) // a client configures, then starts (a finished run leaves no packet producers behind)
 		}
-		udpSilent := c.Source == "udp" && e.udpStop == nil
+		udpSilent := (c.Source == "udp" || c.Source == "udp2") && e.udpStop == nil
 		var err error
 		if bad := c10Watch("Start", func() { err = Start(e.ds, e.queued, 10, 30) }, "Start"); bad != nil {
 			return bad
@@ -398,9 +430,7 @@ func c10Run(c c10Case) (v vVerdict) {
 			}
 			if udpSilent {
 				// from now on the hardware sends data; a client reconfigures and starts again
-				e.udpStop = make(chan struct{})
-				go e.udpSender()
-				time.Sleep(20 * time.Millisecond)
+				e.startSenders()
 				reconfigure(nchan)
 			}
 			return nil
@@ -602,13 +632,11 @@ func c10Run(c c10Case) (v vVerdict) {
 		}
 	}
 	failNext = ""
-	if c.Source == "abaco" || c.Source == "udp" {
+	if c.Source == "abaco" || c.Source == "udp" || c.Source == "udp2" {
 		reconfigure(nchan)
 	}
-	if c.Source == "udp" && e.udpStop == nil {
-		e.udpStop = make(chan struct{})
-		go e.udpSender()
-		time.Sleep(20 * time.Millisecond)
+	if (c.Source == "udp" || c.Source == "udp2") && e.udpStop == nil {
+		e.startSenders()
 	}
 	if bad := doStart(len(c.Ops) + 1); bad != nil {
 		return *bad
@@ -634,7 +662,7 @@ func c10Run(c c10Case) (v vVerdict) {
 }
 
 func c10Gen(t *rapid.T) c10Case {
-	c := c10Case{Source: rapid.SampledFrom([]string{"scripted", "scripted", "scripted", "scripted", "triangle", "simpulse", "erroring", "abaco", "udp", "lancero"}).Draw(t, "source"),
+	c := c10Case{Source: rapid.SampledFrom([]string{"scripted", "scripted", "scripted", "scripted", "triangle", "simpulse", "erroring", "abaco", "udp", "udp2", "lancero"}).Draw(t, "source"),
 		Nchan: rapid.IntRange(1, 4).Draw(t, "nchan")}
 	stops := func() c10Op {
 		k := rapid.SampledFrom([]int{1, 1, 2, 3, 4}).Draw(t, "k")
@@ -645,7 +673,7 @@ func c10Gen(t *rapid.T) c10Case {
 		return op
 	}
 	nrounds := rapid.IntRange(1, 3).Draw(t, "rounds")
-	if c.Source == "abaco" || c.Source == "udp" || c.Source == "lancero" {
+	if c.Source == "abaco" || c.Source == "udp" || c.Source == "udp2" || c.Source == "lancero" {
 		nrounds = rapid.IntRange(1, 2).Draw(t, "rounds2")
 	}
 	for r := 0; r < nrounds; r++ {
